@@ -422,23 +422,24 @@ CanDeliver(x, q, part) ==
 
 VScript(x) ==      \* the next delivery the scenario's peer makes to the victim ("" = stalls)
     LET st == scn.stall IN
-    IF st \in {"partial", "none"} /\ CanDeliver(x, "v", "partial") /\ x.nPartial = 0 THEN "partial"
-    ELSE IF st \in {"body", "qpart", "data", "none"} /\ CanDeliver(x, "v", "head") THEN "head"
+    IF st \in {"partial", "none", "wresume"} /\ CanDeliver(x, "v", "partial") /\ x.nPartial = 0 THEN "partial"
+    ELSE IF st \in {"body", "qpart", "data", "none", "wresume"} /\ CanDeliver(x, "v", "head") THEN "head"
     ELSE IF st = "qpart" /\ CanDeliver(x, "v", "qpart") /\ x.nPartial = 0 THEN "qpart"
-    ELSE IF st \in {"data", "none"} /\ CanDeliver(x, "v", "data") THEN "data"
-    ELSE IF st = "none" /\ x.dataSent /\ CanDeliver(x, "v", "rest") THEN "rest"
+    ELSE IF st \in {"data", "none", "wresume"} /\ CanDeliver(x, "v", "data") THEN "data"
+    ELSE IF st \in {"none", "wresume"} /\ x.dataSent /\ CanDeliver(x, "v", "rest") THEN "rest"
     ELSE ""
 
 Due(x) ==
     IF x.pc[First] = "new" THEN <<"Start", First>>
     ELSE IF x.pc[Other(First)] = "new" /\ (scn.order # "hold" \/ HasConn(x, First))
          THEN <<"Start", Other(First)>>
-    ELSE IF scn.stall = "write" /\ AllowPause /\ ~x.pauseNext /\ x.pc["v"] \in PreConn /\ x.pc["v"] # "new"
+    ELSE IF scn.stall \in {"write", "wresume"} /\ AllowPause /\ ~x.pauseNext /\ x.pc["v"] \in PreConn /\ x.pc["v"] # "new"
          THEN <<"PauseNext">>
     ELSE IF x.pc["r"] = "resolving" /\ x.fut["r"] = "pending" /\ (scn.stall # "dns" \/ VDone(x))
          THEN <<"DnsDone">>
     ELSE IF SockPending(x, "b") THEN <<"SockDone", "b">>
     ELSE IF SockPending(x, "v") /\ scn.stall # "sock" THEN <<"SockDone", "v">>
+    ELSE IF x.wpaused /\ x.pc["w"] = "drain" /\ scn.stall = "wresume" THEN <<"ResumeWriting">>
     ELSE IF CanDeliver(x, "v", "cont") /\ scn.stall # "cont" THEN <<"Deliver", "v", "cont">>
     ELSE IF VScript(x) # "" THEN <<"Deliver", "v", VScript(x)>>
     ELSE IF CanDeliver(x, "b", "all") /\ (scn.stall # "pool" \/ VDone(x)) THEN <<"Deliver", "b", "all">>
